@@ -187,7 +187,16 @@ class Replayer:
             node = helper.make_node(op, in_names, out_names, **attrs)
             from onnx.reference import ReferenceEvaluator
 
-            sess = ReferenceEvaluator(node, opsets={"": version or self.opsets.get("", 21)})
+            ver = version or self.opsets.get("", 21)
+            if ver < 18:
+                # ReferenceEvaluator(NodeProto, opsets=...) ignores the version when it picks the kernel class (Unsqueeze with
+                # an axes attribute is refused for opset 11); wrapped in a model with that opset import it picks Unsqueeze_11
+                feed = {n: x for n, x in zip(in_names, ins) if x is not None}
+                g = helper.make_graph([node], "k", [helper.make_tensor_value_info(n, helper.np_dtype_to_tensor_dtype(x.dtype), list(x.shape))
+                                                   for n, x in feed.items()], [helper.make_empty_tensor_value_info(n) for n in out_names])
+                sess = ReferenceEvaluator(helper.make_model(g, opset_imports=[helper.make_opsetid("", ver)], ir_version=8))
+            else:
+                sess = ReferenceEvaluator(node, opsets={"": ver})
             res = sess.run(None, {n: x for n, x in zip(in_names, ins) if x is not None})
         except Exception as ex:
             raise KernelError(f"{op}: {type(ex).__name__}: {str(ex)[:200]}") from ex
